@@ -95,3 +95,52 @@ Lemma dup_string s x : csv_duplicate_name s = Some x -> from_csv_string s = Err 
 Proof.
   unfold csv_duplicate_name, from_csv_string. destruct s; [discriminate|]. apply dup_import.
 Qed.
+
+(* conversely: no other stage of the import produces this variant *)
+Lemma parse_cells_not_dup r cols vars : parse_cells r cols vars <> Err E_DuplicateVariableName.
+Proof.
+  induction vars as [|x vs IH]; cbn [parse_cells]; [discriminate|].
+  destruct (nth_error r (column_of x cols)); [|discriminate].
+  destruct (string_to_bool t); [|discriminate].
+  destruct (parse_cells r cols vs) as [l|c|c]; cbn [rmap]; try discriminate.
+  intros [= ->]. apply IH. reflexivity.
+Qed.
+
+Lemma parse_record_not_dup w cols vars r : parse_record w cols vars r <> Err E_DuplicateVariableName.
+Proof.
+  unfold parse_record. destruct (negb (length r =? w)); [discriminate|].
+  pose proof (parse_cells_not_dup r cols vars) as H.
+  destruct (parse_cells r cols vars) as [l|c|c]; cbn [bind]; try discriminate.
+  - destruct (last_cell r); [|discriminate]. destruct (string_to_bool t); discriminate.
+  - intros [= ->]. apply H. reflexivity.
+Qed.
+
+Lemma parse_records_not_dup w cols vars rs : parse_records w cols vars rs <> Err E_DuplicateVariableName.
+Proof.
+  induction rs as [|r rest IH]; cbn [parse_records]; [discriminate|].
+  pose proof (parse_record_not_dup w cols vars r) as H.
+  destruct (parse_record w cols vars r) as [po|c|c]; cbn [bind]; try discriminate.
+  - destruct (parse_records w cols vars rest) as [l|c|c]; cbn [rmap]; try discriminate.
+    intros [= ->]. apply IH. reflexivity.
+  - intros [= ->]. apply H. reflexivity.
+Qed.
+
+Lemma import_dup rs : import_records rs = Err E_DuplicateVariableName -> exists x, dup_of_records rs = Some x.
+Proof.
+  unfold dup_of_records, import_records, header_and_data.
+  destruct rs as [|first rest]; [discriminate|].
+  destruct (last_cell first) as [c|]; [|discriminate]. cbn [bind].
+  destruct (negb (is_bool_string c)).
+  - destruct (first_dup [] (removelast first)) as [x|]; [intros _; exists x; reflexivity|].
+    cbn [bind].
+    pose proof (parse_records_not_dup (length first) (removelast first) (set_of_list (removelast first)) rest) as H.
+    destruct (parse_records (length first) (removelast first) (set_of_list (removelast first)) rest) as [rows|c'|c']; cbn [bind].
+    + repeat match goal with |- context [if ?b then _ else _] => destruct b end; discriminate.
+    + intros [= ->]. exfalso. apply H. reflexivity.
+    + discriminate.
+  - cbn [bind].
+    match goal with |- context [parse_records ?w ?c ?v ?r] => pose proof (parse_records_not_dup w c v r) as H; destruct (parse_records w c v r) as [rows|c'|c'] end; cbn [bind].
+    + repeat match goal with |- context [if ?b then _ else _] => destruct b end; discriminate.
+    + intros [= ->]. exfalso. apply H. reflexivity.
+    + discriminate.
+Qed.
